@@ -55,6 +55,73 @@ def is_parameter_annotation(node):
         return True
     return False
 
+
+def is_value_of(ann, w) -> bool:  # noqa: C901
+    """Return True if the annotation ann is bool, a builtin Qint / Qfixed / Qchar type or a
+    Tuple / Qlist / Qmatrix of them, and w is a value of that type. Any other parameter
+    is bound as a bare literal, typed by its value only."""
+
+    def is_iter(w, n):
+        return (
+            hasattr(w, "__iter__") and not isinstance(w, (str, bytes)) and len(w) == n
+        )
+
+    def is_int(e):
+        return isinstance(e, ast.Constant) and type(e.value) is int and e.value > 0
+
+    if isinstance(ann, ast.Name):
+        name, elts = ann.id, []
+    elif isinstance(ann, ast.Subscript) and isinstance(ann.value, ast.Name):
+        name = ann.value.id
+        elts = ann.slice.elts if isinstance(ann.slice, ast.Tuple) else [ann.slice]
+    else:
+        return False
+
+    if name == "bool":
+        return elts == [] and isinstance(w, bool)
+    elif name == "Tuple":
+        return (
+            len(elts) > 0
+            and is_iter(w, len(elts))
+            and all(is_value_of(e, x) for e, x in zip(elts, w))
+        )
+    elif name == "Qlist":
+        return (
+            len(elts) == 2
+            and is_int(elts[1])
+            and is_iter(w, elts[1].value)
+            and all(is_value_of(elts[0], x) for x in w)
+        )
+    elif name == "Qmatrix":
+        return (
+            len(elts) == 3
+            and is_int(elts[1])
+            and is_int(elts[2])
+            and is_iter(w, elts[1].value)
+            and all(is_iter(r, elts[2].value) for r in w)
+            and all(is_value_of(elts[0], x) for r in w for x in r)
+        )
+
+    # Qint[n] is Qintn, Qfixed[n, m] is Qfixedn_m
+    if name in ["Qint", "Qfixed"] and len(elts) > 0 and all(map(is_int, elts)):
+        name += "_".join(str(e.value) for e in elts)
+    elif elts != []:
+        return False
+
+    for t in BUILTIN_TYPES:  # noqa: F405
+        if t.__name__ == name and hasattr(t, "BIT_SIZE"):
+            if isinstance(w, bool):
+                return False
+            elif issubclass(t, QintImp):  # noqa: F405
+                return isinstance(w, int) and 0 <= w < 2**t.BIT_SIZE
+            elif issubclass(t, QfixedImp):  # noqa: F405
+                return isinstance(w, (int, float)) and 0 <= w < 2**t.BIT_SIZE_INTEGER
+            elif issubclass(t, Qchar):  # noqa: F405
+                return isinstance(w, str) and len(w) == 1
+
+    return False
+
+
 class UnboundQlassf:
     """Class representing a qlassf function with unbound parameters"""
 
@@ -87,12 +154,23 @@ class UnboundQlassf:
             if k not in self.parameters:
                 raise Exception(f"Unknown parameter {k}")
 
-            new_body.append(
-                ast.Assign(
-                    targets=[ast.Name(id=k, ctx=ast.Store())],
-                    value=to_val(w),
+            if is_value_of(self.parameters[k], w):
+                # k: T = w, the constant has the type declared as Parameter[T]
+                new_body.append(
+                    ast.AnnAssign(
+                        target=ast.Name(id=k, ctx=ast.Store()),
+                        annotation=copy.deepcopy(self.parameters[k]),
+                        value=to_val(w),
+                        simple=1,
+                    )
                 )
-            )
+            else:
+                new_body.append(
+                    ast.Assign(
+                        targets=[ast.Name(id=k, ctx=ast.Store())],
+                        value=to_val(w),
+                    )
+                )
 
         # remove args annotated with Parameter[…]
         fun_ast.body[0].args.args = [
